@@ -67,8 +67,8 @@ CHECKS = {
         "cases = generated snapshot+membership schedules; TakeSnapshot with the snapshot goroutine parked at its first instruction while further entries incl. configuration entries commit, then released; restarts and installs. Oracle on EVERY meta file published on any disk (hook right after the rename): index/term equal the committed entry, size equals the data file, configuration == newest committed configuration entry with index <= snapshot index; status reports' Latest == newest configuration in log or snapshot label. non-trivial: a snapshot was stored whose configuration in force is not the bootstrap one; distinct by trace hash",
         2000, 20000),
     "C11": vsim("TestVerif_C11", ["nonvoter-authority", "durable-majority"],
-        "cases = generated membership/transfer schedules; non-trivial: a non-voter/non-member had its election timer fire or was sent timeout-now, or a promotion was appended; distinct by trace hash",
-        2000, 20000),
+        "cases = generated membership/transfer schedules (incl. template staletimeoutnow: a timeout-now request withheld until its target has been demoted/removed); non-trivial: a non-voter/non-member had its election timer fire or was sent timeout-now, or a promotion was appended; distinct by trace hash. A process crash inside candidate.startElection also decides this property: its first statement asserts that the campaigning node is a voter",
+        2000, 20000, crash_deciding_re=r"candidate\.(startElection|init)"),
     "C15": vsim("TestVerif_C15", ["no-crash", "serve", "shutdown", "tasks-complete", "log-read"],
         "cases = generated chaos schedules (client + admin tasks, snapshots, compaction, transfers, membership changes, partitions, crash/stop/restart, many 1 KiB segments) ending with heal, restart, 60 s of virtual time and shutdown of every node; non-trivial: >=3 of {snapshot, compaction, install, transfer, membership change, partition, restart}; distinct by trace hash",
         1500, 15000, race=True),
